@@ -10,11 +10,13 @@ CONFIGS = {
     "A": ("MC_RenderIter_A.cfg", 2, 0),
     "B": ("MC_RenderIter_B.cfg", 3, 0),
     "C": ("MC_RenderIter_C.cfg", 0, 3),
+    # C09: render-argument values that cannot be hashed (a list / a dict in a field), 2 frames
+    "D": ("MC_RenderIter_D.cfg", 2, 0),
 }
 
 PROPS = [
     "SeekNoLoop", "RejectedChangesNothing", "SettingsOnlyBySetter", "FrameMatchesSettings",
-    "NoRerender", "ClosedIsTerminal", "LoopCountdown", "PendingSeekOnce",
+    "NoRerender", "EqualArgsChangeNothing", "ClosedIsTerminal", "LoopCountdown", "PendingSeekOnce",
 ]
 
 
@@ -59,11 +61,14 @@ def run_ops(init: dict, steps: list[dict], variant: int, pair: bool):
     for i, st in enumerate(steps):
         op, exp, to = st["op"], st["r"], st.get("to")
         real = it.apply(op)
+        sreal = shadow.apply(op) if shadow is not None else None
+        if sreal is not None and exp["res"] == "frame" == sreal["res"] != real["res"]:
+            return (i, f"{op['name']}:cached-fails-where-uncached-yields",
+                    f"spec and uncached iterator: a frame; cached iterator: {real['res']} {real.get('msg', '')}")
         msg = iterkit.compare(exp, real)
         if msg:
             return i, f"{op['name']}:{msg.split(':')[0]}", msg
         if shadow is not None:
-            sreal = shadow.apply(op)
             a = {k: v for k, v in real.items() if k not in ("rendered", "msg")}
             b = {k: v for k, v in sreal.items() if k not in ("rendered", "msg")}
             if a != b:
